@@ -79,6 +79,11 @@ func runCheck(args []string) int {
 		}
 	}
 	seedChars(seed)
+	if *tier == "thorough" {
+		// the larger scopes of this tier outgrow the small heap that is fastest for the quick tier (GenScopes and GenExpr
+		// ended in back-to-back full collections at 6g once their generators had grown)
+		defaultXmx = "14g"
+	}
 	c := newCtx(id, *tier, seed)
 	c.ReplayPath = *replay
 	err := f(c)
